@@ -32,13 +32,18 @@ class Tree:
         return out
 
 
-def build(e, t, up, bound=()):
+def build(e, t, up, bound=(), pure=False):
     """returns the C++ expression over k2as leaves; fills Tree t.  One op per unifex::connect call:
-    the wrapper of inject_async_stack.hpp (sender_concepts.hpp l.275-287)."""
+    the wrapper of inject_async_stack.hpp (sender_concepts.hpp l.275-287).
+    pure: the inline senders are the ones of the K2 programs (unifex::just, k2::inl) - not observed ('J');
+    otherwise they are k2as::inl, which record a snapshot at their start."""
     k = e[0]
     if k in ("leaf", "leafn"):
         n = t.new(up, "leaf", k); t.leaf_op[e[1]] = n
         return "k2as::leaf{%d,%s}" % (e[1], "true" if k == "leafn" else "false")
+    if k in ("just", "jerr", "jdone", "var") and pure:
+        t.new(up, "J", k)
+        return k2.to_cpp(e, bound)
     if k in ("just", "jerr", "jdone", "var"):
         n = t.new(up, "inl", k)
         iid = 100 + t.ninl; t.ninl += 1; t.inl_op[iid] = n
@@ -48,78 +53,80 @@ def build(e, t, up, bound=()):
         return "k2as::inl{%d,'v',int(%s)}" % (iid, bound[e[1]])
     if k in ("then", "uerr", "udone"):
         n = t.new(up, "op", k)
-        sub = build(e[2], t, n, bound)
+        sub = build(e[2], t, n, bound, pure)
         f = k2.cpp_fn(e[1])
         return {"then": "unifex::then(%s, %s)", "uerr": "k2::uerr(%s, %s)", "udone": "k2::udone(%s, %s)"}[k] % (sub, f)
     if k == "withq":
         n = t.new(up, "op", "with_query_value")
-        return "unifex::with_query_value(%s, k2::get_q%d, %d)" % (build(e[3], t, n, bound), e[1], e[2])
+        return "unifex::with_query_value(%s, k2::get_q%d, %d)" % (build(e[3], t, n, bound, pure), e[1], e[2])
     if k == "unstop":
         n1 = t.new(up, "op", "unstoppable")          # unstoppable.hpp l.63: connects with_query_value(pred, get_stop_token, ...)
         n2 = t.new(n1, "op", "with_query_value")
-        return "unifex::unstoppable(%s)" % build(e[1], t, n2, bound)
+        return "unifex::unstoppable(%s)" % build(e[1], t, n2, bound, pure)
     if k == "mat":
         n1 = t.new(up, "op", "then")
         n2 = t.new(n1, "op", "materialize")
-        return "k2::mat(%s)" % build(e[1], t, n2, bound)
+        return "k2::mat(%s)" % build(e[1], t, n2, bound, pure)
     if k == "dopt":
         n1 = t.new(up, "op", "then")
         n2 = t.new(n1, "op", "let_done")             # done_as_optional = let_done(then(s, optional), [] { return just(nullopt); })
         n3 = t.new(n2, "op", "then")
-        sub = build(e[1], t, n3, bound)
+        sub = build(e[1], t, n3, bound, pure)
         t.new(n2, "J", "just")
         return "k2::dopt(%s)" % sub
     if k in ("letv", "lete", "letd"):
         n = t.new(up, "op", k)
-        a = build(e[1], t, n, bound)
+        a = build(e[1], t, n, bound, pure)
         if k == "letv":
             x = "x%d" % len(bound)
-            return "unifex::let_value(%s, [=](int& %s) { return %s; })" % (a, x, build(e[2], t, n, (x,) + bound))
+            return "unifex::let_value(%s, [=](int& %s) { return %s; })" % (a, x, build(e[2], t, n, (x,) + bound, pure))
         if k == "lete":
             x = "x%d" % len(bound)
             return "unifex::let_error(%s, [=](auto&& ep%s) { int %s = k2::code_of(ep%s); return %s; })" % (
-                a, x, x, x, build(e[2], t, n, (x,) + bound))
-        return "unifex::let_done(%s, [=]() { return %s; })" % (a, build(e[2], t, n, bound))
+                a, x, x, x, build(e[2], t, n, (x,) + bound, pure))
+        return "unifex::let_done(%s, [=]() { return %s; })" % (a, build(e[2], t, n, bound, pure))
     if k == "seq":
         n = t.new(up, "op", "sequence")
         nv = t.new(n, "op", "then")
-        a = build(e[1], t, nv, bound)
-        return "unifex::sequence(k2::voided(%s), %s)" % (a, build(e[2], t, n, bound))
+        a = build(e[1], t, nv, bound, pure)
+        return "unifex::sequence(k2::voided(%s), %s)" % (a, build(e[2], t, n, bound, pure))
     if k == "fin":
         n = t.new(up, "op", "finally")
-        a = build(e[1], t, n, bound)
+        a = build(e[1], t, n, bound, pure)
         nv = t.new(n, "op", "then")
-        return "unifex::finally(%s, k2::voided(%s))" % (a, build(e[2], t, nv, bound))
+        return "unifex::finally(%s, k2::voided(%s))" % (a, build(e[2], t, nv, bound, pure))
     if k == "wall":
         n1 = t.new(up, "op", "then")
         n2 = t.new(n1, "op", "when_all")
-        a = build(e[1], t, n2, bound)
-        return "k2::wall(%s, %s)" % (a, build(e[2], t, n2, bound))
+        a = build(e[1], t, n2, bound, pure)
+        return "k2::wall(%s, %s)" % (a, build(e[2], t, n2, bound, pure))
     if k == "swhen":
         n = t.new(up, "op", "stop_when")
-        a = build(e[1], t, n, bound)
+        a = build(e[1], t, n, bound, pure)
         nv = t.new(n, "op", "then")
-        return "unifex::stop_when(%s, k2::voided(%s))" % (a, build(e[2], t, nv, bound))
+        return "unifex::stop_when(%s, k2::voided(%s))" % (a, build(e[2], t, nv, bound, pure))
     raise ValueError(k)
 
 
-def tree_of(e, wait=False):
+def tree_of(e, wait=False, pure=False):
     """wait: the expression runs under sync_wait: op 0 is the pseudo operation owning the initial frame"""
     if wait:
         t = Tree(first=0)
         w = t.new(None, "wait", "sync_wait")
         o = t.new(w, "op", "observe")        # k2as::observe: the harness's observing adaptor
-        cpp = build(e, t, o)
+        cpp = build(e, t, o, (), pure)
     else:
         t = Tree()
-        cpp = build(e, t, None)
+        cpp = build(e, t, None, (), pure)
+    if pure:
+        cpp = cpp.replace("k2::leaf{", "k2as::leaf{")
     return t, cpp
 
 
-def emit_tu(cases, mode="plain"):
+def emit_tu(cases, mode="plain", pure=False):
     src = ['#include "k2as.hpp"', ""]
     for i, e in enumerate(cases):
-        _, cpp = tree_of(e)
+        _, cpp = tree_of(e, False, pure)
         fn = {"plain": "k2as::run_case", "wait": "k2as::run_case_sync_wait", "task": "k2as::run_case_task"}[mode]
         src.append("static std::string case_%d(bool pre, const std::vector<k2::script_ev>& s) {" % i)
         src.append("  return %s([] { return %s; }, pre, s);" % (fn, cpp))
@@ -216,7 +223,9 @@ def reconstruct(t, obs, wait=False, nthreads=1):
             elif wait and th == 0 and j == 0 and kind == "C":
                 cands = [("W", 0)]
             elif kind == "S":
-                op = tok2op.get(ch[0]) if ch else None
+                # a flagged frame (it does not name this root any more: dead, its storage possibly reused) is not
+                # identified by its address
+                op = tok2op.get(ch[0]) if ch and not flagged else None
                 parent_tok = ch[1] if ch and len(ch) > 1 else None
                 if op is None or op in beg or (below is not None and below[0] in ("S", "W") and t.par.get(op) != below[1]):
                     # not on the observing leaf's path, or the address of an operation already started (storage
@@ -224,7 +233,9 @@ def reconstruct(t, obs, wait=False, nthreads=1):
                     ctx = None
                     if below is not None:
                         ctx = below[1] if below[0] in ("S", "W") else t.par.get(below[1])
-                    cs = [c for c in t.children(ctx) if t.kind[c] == "J" and c not in beg] if ctx is not None else []
+                    cs = [c for c in t.children(ctx) if c not in beg] if ctx is not None else \
+                         [c for c in sorted(t.par) if t.par[c] is None and c not in beg]
+                    cs.sort(key=lambda c: (t.kind[c] != "J", c))
                     cands = [("S", c) for c in cs]
                 else:
                     cands = [("S", op)]
